@@ -134,6 +134,9 @@ def axioms():
         z3.ForAll([s, A], z3.Implies(herm(A), herm(smul(s, A)))),
         z3.ForAll([A, B], z3.Implies(z3.And(herm(A), herm(B)), herm(madd(A, B)))),
         z3.ForAll([A, B], z3.Implies(herm(A), tr(mmul(A, B)) == ip(A, B))),
+        # `tr` is the real part of the trace (every objective here is real): taking real parts inside is transparent, and Re Tr(A^dagger B) = <A, B>
+        z3.ForAll([A], tr(uf("real-part", Arr, A)) == tr(A)),
+        z3.ForAll([A, B], tr(uf("matmul", Arr, uf("transpose", Arr, uf("conj", Arr, A)), B)) == ip(A, B)),
     ]
 
 
@@ -141,6 +144,7 @@ AXIOM_TEXT = [
     "<sA, B> = <A, sB> = s <A, B> for real s (Hilbert-Schmidt inner product)",
     "(sA)B = s(AB);  Tr(sA) = s Tr(A)",
     "Tr(AB) = <A, B> when A is Hermitian; to_density_matrix(.) is Hermitian and so are its real multiples",
+    "objectives are real: Re Tr(Re A) = Re Tr(A) and Re Tr(A^dagger B) = <A, B>",
 ]
 
 
@@ -157,6 +161,8 @@ class ProgEngine(TermEngine):
             if is_arr(a) and is_arr(b):
                 return ip(a, b)
             raise Unsupported("| of non-matrix values")
+        if isinstance(a, int) and isinstance(b, int) and not isinstance(a, bool) and not isinstance(b, bool) and isinstance(op, (ast.Mod, ast.FloorDiv)) and b != 0:
+            return a % b if isinstance(op, ast.Mod) else a // b
         if isinstance(op, ast.Add) and isinstance(a, list) and isinstance(b, list):
             return a + b
         if isinstance(op, ast.Mult) and isinstance(a, list) and isinstance(b, int):
@@ -206,7 +212,7 @@ class ProgEngine(TermEngine):
                 else:
                     raise Unsupported("f-string form")
             return out
-        if isinstance(e, (ast.ListComp, ast.GeneratorExp)) and len(e.generators) == 1 and not e.generators[0].ifs:
+        if isinstance(e, (ast.ListComp, ast.GeneratorExp)) and len(e.generators) == 1:
             g = e.generators[0]
             try:
                 seq = self._iterable(g.iter, env, pc)
@@ -217,7 +223,14 @@ class ProgEngine(TermEngine):
                 for x in seq:
                     env2 = dict(env)
                     self._bind(g.target, x, env2)
-                    out.append(self.ev(e.elt, env2, pc))
+                    keep = True
+                    for cnd in g.ifs:
+                        v = self.ev(cnd, env2, pc)
+                        if not isinstance(v, bool):
+                            raise Unsupported("comprehension filter over a symbolic value")
+                        keep = keep and v
+                    if keep:
+                        out.append(self.ev(e.elt, env2, pc))
                 return out
         if isinstance(e, ast.Compare) and len(e.ops) == 1 and isinstance(e.ops[0], (ast.Is, ast.IsNot)) and isinstance(e.comparators[0], ast.Constant) and e.comparators[0].value is None:
             a = self.ev(e.left, env, pc)
@@ -238,6 +251,8 @@ class ProgEngine(TermEngine):
                 return super(TermEngine, self).compare(e.ops[0], a, b)
             if is_scalar(a) and is_scalar(b):
                 return self.compare(e.ops[0], a, b)
+        if isinstance(e, ast.Attribute) and isinstance(e.value, ast.Name) and e.value.id == "self" and ("self." + e.attr) in env:
+            return env["self." + e.attr]
         if isinstance(e, ast.Attribute):
             if isinstance(e.value, ast.Name) and e.value.id == "picos":
                 return ("picos", e.attr)
@@ -271,7 +286,97 @@ class ProgEngine(TermEngine):
         return super().ev(e, env, pc)
 
     # ------------------------------------------------------------------ statements
+    _CONCRETE_CALLS = {"np.ones", "np.zeros", "list", "range", "len", "sum", "zip", "int"}
+    _CONCRETE_METHODS = {"astype", "flatten", "tolist"}
+
+    def _concrete(self, node, env):
+        """value of an expression all of whose inputs are concrete Python ints / lists (index bookkeeping such as
+        `2 * np.ones((1, 3 * n)).astype(int).flatten()`): evaluated with the real numpy, which IS the semantics; None if not applicable"""
+        import numpy as _np
+
+        scope = {}
+        import copy as _copy
+
+        node = _copy.deepcopy(node)
+
+        class _Sub(ast.NodeTransformer):
+            def visit_Attribute(self_, n):  # noqa: N805
+                if isinstance(n.value, ast.Name) and n.value.id == "self" and ("self." + n.attr) in env:
+                    return ast.copy_location(ast.Name(id="self__" + n.attr, ctx=ast.Load()), n)
+                return self_.generic_visit(n)
+
+        node = ast.fix_missing_locations(_Sub().visit(node))
+        env = dict(env)
+        for k in list(env):
+            if k.startswith("self."):
+                env["self__" + k[5:]] = env[k]
+        for n in ast.walk(node):
+            if isinstance(n, ast.Name):
+                if n.id == "np":
+                    scope["np"] = _np
+                elif n.id in ("int", "list", "range", "len", "sum", "zip"):
+                    continue
+                elif n.id in env and (isinstance(env[n.id], (int, str)) or (isinstance(env[n.id], list) and all(isinstance(x, int) for x in env[n.id]))):
+                    scope[n.id] = env[n.id]
+                elif isinstance(n.ctx, ast.Load):
+                    return None
+            if isinstance(n, ast.Call):
+                fn = ast.unparse(n.func)
+                if fn not in self._CONCRETE_CALLS and not (isinstance(n.func, ast.Attribute) and n.func.attr in self._CONCRETE_METHODS):
+                    return None
+            if isinstance(n, (ast.Lambda, ast.Attribute)) and isinstance(n, ast.Attribute) and not (n.attr in self._CONCRETE_METHODS or ast.unparse(n) in self._CONCRETE_CALLS):
+                return None
+        if not any(isinstance(n, ast.Call) for n in ast.walk(node)):
+            return None
+        try:
+            v = eval(compile(ast.Expression(node), "<concrete>", "eval"), {"__builtins__": {"int": int, "list": list, "range": range, "len": len, "sum": sum, "zip": zip}}, scope)
+        except Exception:
+            return None
+        if isinstance(v, _np.ndarray):
+            return None  # only plain Python results are kept (a later .tolist() produces them)
+        if isinstance(v, list) and all(isinstance(x, (int, _np.integer)) for x in v):
+            return [int(x) for x in v]
+        return None
+
     def stmt(self, s, env, pc):
+        if isinstance(s, ast.Assign) and len(s.targets) == 1 and isinstance(s.targets[0], ast.Attribute) and isinstance(s.targets[0].value, ast.Name) and s.targets[0].value.id == "self":
+            key = "self." + s.targets[0].attr
+            node = s.value
+            pend = env.get("__pending__", {})
+            if isinstance(node, ast.Call) and isinstance(node.func, ast.Attribute) and node.func.attr == "tolist" and ast.unparse(node.func.value) in pend:
+                node = ast.Call(func=ast.Attribute(value=pend[ast.unparse(node.func.value)], attr="tolist", ctx=ast.Load()), args=[], keywords=[])
+                ast.fix_missing_locations(node)
+            v = self._concrete(node, env)
+            if v is None:
+                if any(isinstance(n, ast.Attribute) and n.attr in ("astype", "flatten") for n in ast.walk(s.value)):
+                    pend = dict(pend)
+                    pend[key] = s.value
+                    env["__pending__"] = pend
+                    env[key] = None
+                    return [(env, pc)]
+                try:
+                    v = self.ev(s.value, env, pc)
+                except Unsupported as u:
+                    from .termvc import Poison
+
+                    v = Poison("%s = %s: %s" % (key, ast.unparse(s.value)[:60], u))
+            env[key] = v
+            return [(env, pc)]
+        if isinstance(s, ast.Assign) and len(s.targets) == 1 and isinstance(s.targets[0], ast.Name):
+            # two-step idiom: x = <numpy expr>; x = x.tolist()  -- keep the unevaluated expression until it becomes a Python list
+            node = s.value
+            pend = env.get("__pending__", {})
+            if isinstance(node, ast.Call) and isinstance(node.func, ast.Attribute) and node.func.attr == "tolist" and isinstance(node.func.value, ast.Name) and node.func.value.id in pend:
+                node = ast.Call(func=ast.Attribute(value=pend[node.func.value.id], attr="tolist", ctx=ast.Load()), args=[], keywords=[])
+                ast.fix_missing_locations(node)
+            v = self._concrete(node, env)
+            if v is not None:
+                env[s.targets[0].id] = v
+                return [(env, pc)]
+            if any(isinstance(n, ast.Name) and n.id == "np" for n in ast.walk(s.value)) and any(isinstance(n, ast.Attribute) and n.attr in ("astype", "flatten") for n in ast.walk(s.value)):
+                pend = dict(pend)
+                pend[s.targets[0].id] = s.value
+                env["__pending__"] = pend
         if isinstance(s, ast.Expr) and isinstance(s.value, ast.Call):
             self.ev(s.value, env, pc)
             return [(env, pc)]
@@ -301,6 +406,35 @@ class ProgEngine(TermEngine):
             if e.args:
                 raise Unsupported("positional call of a builder")
             return Struct("builder", f.id, tuple(sorted((k, keyrepr(v)) for k, v in self._kw(e, env, pc).items())))
+        if fname.startswith("cvxpy."):
+            args = [self.ev(a, env, pc) for a in e.args]
+            kw = self._kw(e, env, pc)
+            what = fname[6:]
+            if what == "Variable":
+                shape = args[0]
+                shp = list(shape) if isinstance(shape, tuple) else [shape]
+                extra = ",".join("%s=%r" % (k, v) for k, v in sorted(kw.items()))
+                k = self.c.nvars
+                self.c.nvars += 1
+                return uf("cvxpy.Variable#%d[%s]" % (k, extra), Arr, *[lift(x) for x in shp])
+            if what in ("Maximize", "Minimize") and len(args) == 1:
+                return ("objective", "max" if what == "Maximize" else "min", args[0])
+            if what == "trace" and len(args) == 1 and is_arr(args[0]):
+                return tr(args[0])
+            if what == "real" and len(args) == 1:
+                return uf("real-part", Arr, args[0]) if is_arr(args[0]) else args[0]
+            if what == "kron" and len(args) == 2:
+                return uf("kron", Arr, args[0], args[1])
+            if what == "multiply" and len(args) == 2:
+                return uf("multiply", Arr, args[0], args[1])
+            if what == "Problem" and len(args) == 2 and isinstance(args[0], tuple) and args[0][0] == "objective" and isinstance(args[1], list):
+                pr = Prob()
+                pr.direction, pr.objective, pr.objective_set = args[0][1], args[0][2], 1
+                pr.cons = [self._cons(c) for c in args[1]]
+                pr.functional = True
+                self.c.problems.append(pr)
+                return pr
+            raise Unsupported("cvxpy call %s" % fname)
         if fname.startswith("picos."):
             args = [self.ev(a, env, pc) for a in e.args]
             kw = self._kw(e, env, pc)
@@ -363,7 +497,7 @@ class ProgEngine(TermEngine):
                     prob.solves += 1
                     prob.solved_at = len(prob.cons)
                     prob.solve_kw = kw
-                    return OptVal(prob)
+                    return OptVal(prob)  # cvxpy: solve() returns the optimal value; picos: a solution whose .value is read
                 if m == "get_constraint" and len(args) == 1 and isinstance(args[0], int):
                     if not 0 <= args[0] < len(prob.cons):
                         raise Unsupported("constraint index out of range")
@@ -399,6 +533,7 @@ class ProgContract:
         self.params, self.spec, self.text = params, spec, text
         self.problems = []
         self.late_edits = 0
+        self.nvars = 0
         self.toqito_names = getattr(self._base, "toqito_names", set())
         self.methods = {}
 
@@ -446,15 +581,24 @@ class ProgContract:
             want = self.spec(self.env0)
         except Exception as ex:
             return [("spec could not be built: %s" % ex, False)]
-        ok_shape = isinstance(value, tuple) and len(value) == 2 and isinstance(value[0], OptVal)
-        out.append(("the function returns (optimal value of a solved program, variables)", bool(ok_shape)))
+        scalar = bool(want.get("scalar_result"))
+        if scalar:
+            ok_shape = isinstance(value, OptVal)
+            out.append(("the function returns the optimal value of a solved program", bool(ok_shape)))
+            value = (value, None)
+        else:
+            ok_shape = isinstance(value, tuple) and len(value) == 2 and isinstance(value[0], OptVal)
+            out.append(("the function returns (optimal value of a solved program, variables)", bool(ok_shape)))
         if not ok_shape:
             return out
         prob = value[0].prob
         out.append(("exactly one program is built and it is solved exactly once, after its last constraint and objective", len(self.problems) == 1 and prob.solves == 1 and prob.solved_at == len(prob.cons) and self.late_edits == 0 and prob.objective_set == 1))
         kw = prob.solve_kw
-        solver_ok = isinstance(kw.get("solver"), Param) and kw["solver"].name == "solver"
-        out.append(("solve() is called with the caller's solver", bool(solver_ok)))
+        if want.get("solver_param", True):
+            solver_ok = isinstance(kw.get("solver"), Param) and kw["solver"].name == "solver"
+            out.append(("solve() is called with the caller's solver", bool(solver_ok)))
+        else:
+            out.append(("solve() is called without arguments (default solver)", not kw))
         out.append(("direction of optimisation is '%s'" % want["direction"], prob.direction == want["direction"]))
         obj = prob.objective
         if not (is_z3(obj) and obj.sort() == R):
@@ -479,6 +623,8 @@ class ProgContract:
                     if hit is not None:
                         left.remove(hit)
                     out.append(("stated constraint %d (%s) is in the program" % (k, want["constraint_text"][k] if k < len(want.get("constraint_text", [])) else ""), hit is not None))
+        if scalar:
+            return out
         second = want["result"](prob)
         got = value[1]
         out.append(("second component of the result is " + want.get("result_text", "as stated"), self._same(got, second)))
@@ -547,3 +693,39 @@ class DispatchContract:
         want = Struct("builder", name, tuple(sorted((k, keyrepr(v)) for k, v in kw.items())))
         ok = isinstance(value, Struct) and value.key() == want.key()
         return [(self.text, bool(ok))]
+
+
+class InitContract:
+    """__init__ of an object whose later methods are verified against attribute values: the attributes stored are the stated ones"""
+
+    def __init__(self, params, want, text):
+        self.params, self.want, self.text = params, want, text
+        self.problems = []
+        self.late_edits = 0
+        self.nvars = 0
+        self.toqito_names = set()
+        self.methods = {}
+
+    def inputs(self):
+        env = {"self": "self"}
+        for n, k in self.params:
+            env[n] = z3.Const(n, Arr) if k == "arr" else k
+        self.env0 = dict(env)
+        return env, []
+
+    def bind_callee(self, eng, name, args, kw_terms, kws):
+        return NotImplemented
+
+    def callee(self, eng, name, full, args):
+        return NotImplemented
+
+    def post(self, eng, value, env):
+        out = []
+        for attr, exp in self.want(self.env0).items():
+            got = env.get("self." + attr)
+            if is_z3(exp):
+                ok = is_z3(got) and got.eq(exp)
+            else:
+                ok = got == exp and type(got) is type(exp)
+            out.append(("%s: self.%s == %s" % (self.text, attr, exp if not is_z3(exp) else "the argument"), bool(ok)))
+        return out
